@@ -71,7 +71,7 @@ def spliceAll (f : Block → TRes) : List Block → Except PyErr (List Block)
 
 /-- `BlockMiddleware.transform`: splice, then rebuild the library (`Library(blocks=blocks)`) -/
 def blockTransform (f : Block → TRes) : Mw := fun bs => do
-  let L ← libraryOf (← spliceAll f bs)
+  let L ← libraryOfE (← spliceAll f bs)
   pure L.blocks
 
 end Bib
